@@ -2,7 +2,10 @@ package props
 
 import (
 	"fmt"
+	"runtime"
 	"strings"
+	"sync"
+	"sync/atomic"
 
 	"github.com/fluffle/goirc/client"
 
@@ -27,6 +30,9 @@ func init() {
 				bs = append(bs, Batch{Name: fmt.Sprintf("grid-p%d", p), Args: map[string]string{"procs": fmt.Sprint(p), "mode": "grid"}, Race: true, Procs: p, Weight: min(p, 4)})
 			}
 			bs = append(bs, Batch{Name: "failures", Args: map[string]string{"mode": "failures", "procs": "4"}, Race: true, Procs: 4})
+			for _, p := range []int{2, 16} {
+				bs = append(bs, Batch{Name: fmt.Sprintf("poll-p%d", p), Args: map[string]string{"mode": "poll", "procs": fmt.Sprint(p)}, Race: p == 2, Procs: p, Weight: min(p, 4)})
+			}
 			if tier == "thorough" {
 				for i := 0; i < 8; i++ {
 					p := []int{1, 2, 4, 16}[i%4]
@@ -152,6 +158,9 @@ func runC06(c *Ctx) {
 	case "failures":
 		runC06Failures(c)
 		return
+	case "poll":
+		runC06Poll(c)
+		return
 	}
 	grid := c06Grid()
 	reps := c.ArgInt("reps", c.Pick(3, 1))
@@ -186,6 +195,106 @@ func runC06(c *Ctx) {
 		}
 	}
 	c.R.Exhaustive[fmt.Sprintf("the %d-scenario cause-pair x traffic x configuration grid (schedules within each scenario are sampled)", len(grid))] = false
+}
+
+// runC06Poll: while a connection is up and nothing has begun to end it, Connected() is true at every instant a
+// REGISTER or CONNECTED handler (or anybody else) asks - also at the instants at which other goroutines are being
+// refused a second Connect, which must leave the connection as it is.
+func runC06Poll(c *Ctx) {
+	rounds := c.Pick(12, 120)
+	polls := c.Pick(40_000, 400_000)
+	procs := c.Arg("procs", "?")
+	for idx := 0; idx < rounds; idx++ {
+		if !c.Want("poll", idx) {
+			continue
+		}
+		r := rig.Rand(c.Seed, "C06poll", procs, idx)
+		nRefused := 1 + r.Intn(3)
+		inReg := idx%2 == 1 // poll inside REGISTER (dispatched by Connect itself) instead of CONNECTED
+		c.J.Log("CASE %s refusers=%d in-register=%v", Case("poll", idx), nRefused, inReg)
+		s := NewSession(SessionOpts{Tracking: r.Intn(2) == 0, Flood: true})
+		var falses, total, accepted, refused int64
+		stop := make(chan struct{})
+		var wg sync.WaitGroup
+		startRefusers := func() {
+			for g := 0; g < nRefused; g++ {
+				wg.Add(1)
+				go func() {
+					defer wg.Done()
+					for {
+						select {
+						case <-stop:
+							return
+						default:
+						}
+						if err := s.Conn.Connect(); err == nil {
+							atomic.AddInt64(&accepted, 1)
+							return
+						}
+						atomic.AddInt64(&refused, 1)
+					}
+				}()
+			}
+		}
+		pollNow := func(cc *client.Conn) {
+			for k := 0; k < polls; k++ {
+				if !cc.Connected() {
+					atomic.AddInt64(&falses, 1)
+				}
+				atomic.AddInt64(&total, 1)
+				if k%64 == 0 {
+					runtime.Gosched()
+				}
+			}
+		}
+		handlerDone := make(chan struct{})
+		ev := client.CONNECTED
+		if inReg {
+			ev = client.REGISTER
+		}
+		s.Conn.HandleFunc(ev, func(cc *client.Conn, l *client.Line) {
+			if !inReg {
+				startRefusers() // (during REGISTER the client is still inside Connect: a second Connect then is not "while connected")
+			}
+			pollNow(cc)
+			close(handlerDone)
+		})
+		mc, err := s.Connect()
+		if err != nil {
+			c.R.Inconcl("connect: " + err.Error())
+			return
+		}
+		mc.SendLine(":srv 001 me :Welcome")
+		if inReg {
+			startRefusers()
+			pollNow(s.Conn) // a user goroutine asking, while others are being refused
+		}
+		if !waitCh(handlerDone) {
+			c.R.Inconcl(fmt.Sprintf("%s: the polling handler did not finish", Case("poll", idx)))
+			close(stop)
+			return
+		}
+		close(stop)
+		wg.Wait()
+		c.R.Eval(1)
+		c.R.Count("connected_polls", atomic.LoadInt64(&total))
+		c.R.Count("refused_connects_during_polls", atomic.LoadInt64(&refused))
+		if f := atomic.LoadInt64(&falses); f > 0 {
+			c.R.Violate(rig.Violation{Sig: "c06|connected-false-while-up", Detail: fmt.Sprintf("Connected() returned false %d times out of %d while the connection was up, nothing had begun to end it and %d second Connects were being refused (polling inside %s / a user goroutine)", f, atomic.LoadInt64(&total), atomic.LoadInt64(&refused), ev), Case: Case("poll", idx)})
+		}
+		if a := atomic.LoadInt64(&accepted); a > 0 {
+			c.R.Violate(rig.Violation{Sig: "c06|second-connect-accepted", Detail: fmt.Sprintf("%d Connect calls on a connected client returned nil", a), Case: Case("poll", idx)})
+		}
+		if !s.WireMarker(mc) {
+			c.R.Violate(rig.Violation{Sig: "c06|connection-broken-by-refused-connect", Detail: "after the refused Connects the connection no longer answers a PING", Case: Case("poll", idx)})
+		}
+		c.R.Class(fmt.Sprintf("poll|in-register=%v|refusers=%d|procs=%s", inReg, nRefused, procs))
+		CloseWatched(s.Conn)
+		s.Release()
+		if c.R.NumViolations() > 6 {
+			return
+		}
+	}
 }
 
 // runC06Failures: connects that fail or are refused fire no event.
